@@ -293,6 +293,28 @@ def run(ctx):
     _tables(ctx, keys)
     _shapes(ctx)
     _pipeline(ctx, keys)
+    _history(ctx)
+
+
+def _history(ctx):
+    """The mask depends on the message and the secret of this call only."""
+    from ..core.table import history_compare
+    rep, world = ctx.report, ctx.world
+    rep.rule('R4.7', 'mask_password keeps no state: a call answers the same '
+             'whatever was masked before (with whatever mask)')
+    f = world.func(MOD, 'mask_password')
+    for (m1, s1), (m2, s2) in (
+            (('password=***', '***'), ('password=***', '#')),
+            (('nothing to see here', '***'), ('nothing to see here', '#')),
+            (('token=abc', '***'), ('token=abc', '***')),
+            (('x token="abc" y', '#'), ('x token="abc" y', '***')),
+            (('password=#', '#'), ('password=#', '')),
+            (('a' * 40, '***'), ("{'password': 'x'}", '***'))):
+        history_compare(
+            rep, 'R4.7', 'mask_password[after an earlier call]', world,
+            lambda i: f, ([K(m1)], {'secret': K(s1)}),
+            ([K(m2)], {'secret': K(s2)}),
+            label='%r masked with %r, then %r with %r' % (m1, s1, m2, s2))
 
 
 def _tables(ctx, keys):
